@@ -200,14 +200,36 @@ def check_control(chk, MX, sd, acs, frames, name, cases, descr):
     return None, None
 
 
-def check_state(chk, MX, sd, acs, name):
+def check_state(chk, MX, sd, acs, name, cases=None, descr=None):
     rng = chk.rng
     H = MX.helpers
     steps = dict(dx=rng.choice([0.5, 5.0]), dV=rng.choice([0.5, 2.0]), de=rng.choice([0.001, 0.1, 0.1]), dw=rng.choice([0.01, 0.05]))      # also steps far from the defaults
     if len(acs) > 1 or sd["scene"]["atmosphere"].get("rho") == "standard":
         steps["dx"] = 40.0          # a position step over which the other aircraft / the atmosphere really change
     sc = gen.build_scene(MX, sd, acs)
-    out = sc.state_derivatives(aircraft=name, **steps)[name]
+    # the states the analysis hands to the aircraft (forward and backward for each of the twelve variables, then the reset)
+    ap_ = sc._airplanes[name]
+    s0_ = [np.array(x, dtype=float) for x in ap_.get_state()]          # Earth-fixed velocity, body rates, position, attitude
+    handed, orig_set = [], ap_.set_state
+    def recording_set(**kw):
+        handed.append({k_: np.array(v_, dtype=float).copy() for k_, v_ in kw.items() if k_ in ("position", "velocity", "orientation", "angular_rates")})
+        return orig_set(**kw)
+    ap_.set_state = recording_set
+    try:
+        out = sc.state_derivatives(aircraft=name, **steps)[name]
+    finally:
+        del ap_.set_state
+    if cases is not None and len(handed) >= 24:
+        from harness.common import fv3, fq4
+        arg = lambda h_: "(%s, %s, %s, %s)" % (fv3(h_["position"]), fv3(h_["velocity"]), fq4(h_["orientation"]), fv3(h_["angular_rates"]))
+        st_ = "%s %s %s %s" % (fv3(s0_[0]), fv3(s0_[1]), fv3(s0_[2]), fq4(s0_[3]))
+        for r_ in range(9):
+            d_ = (steps["dV"], steps["dx"], steps["dw"])[r_ // 3]
+            cases.append("chk_sd_args %s %d%%nat %d%%nat %s %s %s" % (st_, r_ // 3, r_ % 3, fhex(d_), arg(handed[2 * r_]), arg(handed[2 * r_ + 1])))
+            descr.append(dict(what="state-derivative-states,%s%d" % (("velocity", "position", "rates")[r_ // 3], r_ % 3)))
+        for r_ in range(3):
+            cases.append("chk_sd_args_q %s %d%%nat %s %s %s" % (st_, r_, fhex(steps["de"]), arg(handed[18 + 2 * r_]), arg(handed[19 + 2 * r_])))
+            descr.append(dict(what="state-derivative-states,attitude%d" % r_))
     base = gen.build_scene(MX, sd, acs)
     ap = base._airplanes[name]
     v0, w0, p0, q0 = [np.array(x, dtype=float) for x in ap.get_state()]
@@ -311,7 +333,7 @@ def run(chk):
             elif kind == "control":
                 sig, det = check_control(chk, MX, sd, acs, frames, name, cases, descr)
             elif kind == "state":
-                sig, det = check_state(chk, MX, sd, acs, name)
+                sig, det = check_state(chk, MX, sd, acs, name, cases, descr)
             else:
                 sc = gen.build_scene(MX, sd, acs)
                 d = sc.derivatives(**frames)
